@@ -11,8 +11,13 @@ use std::path::{Path, PathBuf};
 use std::sync::atomic::{AtomicUsize, Ordering};
 use std::sync::{Arc, Mutex};
 
+/// marker of a record whose FORMATTING fails after part of the line has been produced
+pub const FAILFMT: &str = "\u{1}failfmt";
 pub fn raw_format(w: &mut dyn Write, _now: &mut DeferredNow, record: &Record) -> std::io::Result<()> {
-    write!(w, "{}", record.args())
+    if let Some(s) = record.args().as_str() { if s.starts_with(FAILFMT) { write!(w, "partial output of a record whose formatting fails ")?; return Err(std::io::Error::other("format function failed")); } }
+    let text = record.args().to_string();
+    if text.starts_with(FAILFMT) { write!(w, "partial output of a record whose formatting fails ")?; return Err(std::io::Error::other("format function failed")); }
+    w.write_all(text.as_bytes())
 }
 
 pub fn stamp_to_local(k: u64) -> chrono::DateTime<Local> {
